@@ -258,6 +258,27 @@ func main() {
 	}
 	out.Def("cmdOnWalkError", "List String", xlib.LeanStrList(acts))
 	out.Def("cmdDeferred", "List String", xlib.LeanStrList(deferred(cf, cw)))
+	// is the tar writer closed as the LAST statement of write (reached only when every output was walked)?
+	tarVar := ""
+	ast.Inspect(cw.Body, func(n ast.Node) bool {
+		if as, ok := n.(*ast.AssignStmt); ok && len(as.Lhs) == 1 && len(as.Rhs) == 1 {
+			if c, ok := as.Rhs[0].(*ast.CallExpr); ok && callName(c) == "tar.NewWriter" {
+				if id, ok := as.Lhs[0].(*ast.Ident); ok {
+					tarVar = id.Name
+				}
+			}
+		}
+		return true
+	})
+	closedAtEnd := false
+	if n := len(cw.Body.List); n > 0 && tarVar != "" {
+		if es, ok := cw.Body.List[n-1].(*ast.ExprStmt); ok {
+			if c, ok := es.X.(*ast.CallExpr); ok && callName(c) == tarVar+".Close" {
+				closedAtEnd = true
+			}
+		}
+	}
+	out.Def("cmdTarClosedAtEndOfSuccessPath", "Bool", xlib.LeanBool(closedAtEnd))
 
 	// ---- command cache: Store runs the command under a cancellable context; Retrieve ands the exit status
 	cs := cf.Func("cmdCache.Store")
